@@ -500,7 +500,8 @@ func (c *Ctx) Ite(cond, a, b *Term) *Term {
 
 // addrRoot returns the root of an address term and whether it is syntactically known.
 // kind: 0 unknown, 1 fresh/global object with concrete id (K), 2 nil, 3 entry-state symbol,
-// 4 value that existed when K objects had been allocated (read from a havoc memory)
+// 4 value that existed when K objects had been allocated (read from a havoc memory),
+// 5 anonymous object allocated during the call by an earlier loop iteration (distinct from every named object)
 func addrRoot(a *Term) (*Term, int) {
 	for {
 		switch a.Op {
@@ -513,6 +514,9 @@ func addrRoot(a *Term) (*Term, int) {
 		case OpVar:
 			if a.K2 == 7 { // marked as entry-state pointer
 				return a, 3
+			}
+			if a.K2 == 9 { // an object allocated during the call in an earlier loop iteration
+				return a, 5
 			}
 			return a, 0
 		case OpApp:
@@ -639,6 +643,9 @@ func (c *Ctx) addrEq(a, b *Term) (*Term, bool) {
 	}
 	if (ka == 1 && kb == 4 && ra.K > rb.K) || (kb == 1 && ka == 4 && rb.K > ra.K) {
 		return c.False, true // object allocated after the unknown value came into existence
+	}
+	if (ka == 5 && (kb == 1 || kb == 2 || kb == 3)) || (kb == 5 && (ka == 1 || ka == 2 || ka == 3)) {
+		return c.False, true // anonymous call-local object vs a named object, nil or an entry-state object
 	}
 	if (ka == 1 && kb == 2) || (ka == 2 && kb == 1) {
 		return c.False, true
@@ -1120,6 +1127,14 @@ func (c *Ctx) EntryAddrVar(name string) *Term {
 	name = smtName(name)
 	c.declare(name, fmt.Sprintf("(declare-fun %s () Addr)", name))
 	return c.mk(&Term{Op: OpVar, S: SAddr, Name: name, K2: 7})
+}
+
+// LocalAddrVar is an address symbol denoting an anonymous object allocated during the call (by an earlier iteration
+// of a loop): it is none of the objects the symbolic execution names, nor anything that existed at entry.
+func (c *Ctx) LocalAddrVar(name string) *Term {
+	name = smtName(name)
+	c.declare(name, fmt.Sprintf("(declare-fun %s () Addr)", name))
+	return c.mk(&Term{Op: OpVar, S: SAddr, Name: name, K2: 9})
 }
 
 // EntryApp is an application of an entry-state memory function (its value existed at entry).
